@@ -492,3 +492,34 @@ def r11e(model: Model, rr: RuleResult):
         rr.ok("ReorderList sorts the table's own list in place by the key glyph's id")
     else:
         rr.bad(lfi, lfi.node, "ReorderList no longer sorts the table's own list in place by glyph id", construct="ReorderList.apply")
+
+
+@RULES.rule("C11", "R11f", "every element is visited: no loop of the reordering pass can stop early", floor=4)
+def r11f(model: Model, rr: RuleResult):
+    targets = [("reorder_glyphs", "reorder_glyphs"), ("reorder_glyphs", "ReorderCoverage.apply"), ("util", "_traverse_ot_data")]
+    n = 0
+    for mod, qn in targets:
+        fi = model.func(mod, qn)
+        loops = [st for st in walk_body(fi) if isinstance(st, (ast.For, ast.While))]
+        for lp in loops:
+            n += 1
+            exits = []
+            todo = list(lp.body)
+            while todo:
+                x = todo.pop()
+                if isinstance(x, (ast.FunctionDef, ast.AsyncFunctionDef, ast.Lambda, ast.ClassDef)):
+                    continue
+                if isinstance(x, ast.Return) or (isinstance(x, ast.Break)):
+                    exits.append(x)
+                if isinstance(x, (ast.For, ast.While)) and x is not lp:
+                    # a break inside a nested loop leaves that loop only; returns still leave the function
+                    todo.extend(y for st in x.body + x.orelse for y in ast.walk(st) if isinstance(y, ast.Return))
+                    continue
+                todo.extend(ast.iter_child_nodes(x))
+            if exits:
+                rr.bad(fi, exits[0], f"`{short(exits[0])}` inside `{short(lp, 60)}` ends the pass at the first element that meets its condition: every later "
+                       f"coverage / subtable / table keeps the old glyph order", construct=f"{qn}: {type(exits[0]).__name__.lower()} inside loop `{short(lp, 50)}`")
+            else:
+                rr.ok(f"{qn}: `{short(lp, 60)}` has no early exit")
+    if n < 4:
+        raise AnalysisError(f"R11f: only {n} loops found in the reordering pass")
